@@ -443,8 +443,18 @@ func runCheck(prop, tier string) int {
 	var fresh []violation
 	for _, v := range viols {
 		if v.Key != "" {
-			if pat, ok := known.match(prop, v.Key); ok {
-				maskedByKey[pat]++
+			// a case that hits several causes reports them joined with '+': it is known only if every cause is
+			parts := strings.Split(v.Key, "+")
+			pats := make([]string, 0, len(parts))
+			for _, part := range parts {
+				if pat, ok := known.match(prop, part); ok {
+					pats = append(pats, pat)
+				}
+			}
+			if len(pats) == len(parts) {
+				for _, pat := range pats {
+					maskedByKey[pat]++
+				}
 				continue
 			}
 		}
@@ -455,8 +465,10 @@ func runCheck(prop, tier string) int {
 		total := 0
 		for ck, cv := range counters {
 			if strings.HasPrefix(ck, "violation_key:") {
-				if p2, ok := known.match(prop, strings.TrimPrefix(ck, "violation_key:")); ok && p2 == pat {
-					total += cv
+				for _, part := range strings.Split(strings.TrimPrefix(ck, "violation_key:"), "+") {
+					if p2, ok := known.match(prop, part); ok && p2 == pat {
+						total += cv
+					}
 				}
 			}
 		}
